@@ -41,7 +41,7 @@ func RandomFeat(r *Rng) Feat {
 	f := Feat{
 		Funcs: r.Chance(75), Slices: r.Chance(55), Strings: r.Chance(75), Switch: r.Chance(40),
 		ForRange: r.Chance(40), For3: r.Chance(60), FileOps: r.Chance(30), AppCalls: r.Chance(25),
-		Input: r.Chance(12), MultiRet: r.Chance(40), Panic: r.Chance(20), Comments: r.Chance(30), NoStrLit: r.Chance(12), AdvNames: r.Chance(30), Errors: r.Chance(35), Blanks: r.Chance(35), NamePool: r.Chance(20),
+		Input: r.Chance(12), MultiRet: r.Chance(40), Panic: r.Chance(20), Comments: r.Chance(30), NoStrLit: r.Chance(16), AdvNames: r.Chance(30), Errors: r.Chance(35), Blanks: r.Chance(35), NamePool: r.Chance(20),
 		MaxTop: r.Range(1, 8), MaxBody: r.Range(1, 4), MaxDepth: r.Range(1, 3), MaxExpr: r.Range(1, 3), MaxFuncs: r.Range(0, 4),
 	}
 	if r.Chance(20) {
@@ -503,7 +503,7 @@ func (g *pgen) block(env []variable, n int, depth int, inFunc, inLoop bool, uppe
 				}
 			case v.typ == "string" && r.Chance(30):
 				g.line("%s += %s", v.name, g.expr("string", env, 1))
-			case strings.HasPrefix(v.typ, "[]") && r.Chance(60):
+			case strings.HasPrefix(v.typ, "[]") && r.Chance(map[bool]int{true: 95, false: 60}[g.f.NoStrLit]):
 				g.line("%s[%s] = %s", v.name, g.expr("int", env, 1), g.expr(v.typ[2:], env, 1))
 			default:
 				g.line("%s = %s", v.name, g.expr(v.typ, env, 0))
@@ -701,6 +701,10 @@ func (g *pgen) block(env []variable, n int, depth int, inFunc, inLoop bool, uppe
 					args[j] = g.expr("string", env, 2)
 				}
 				name := r.Pick([]string{"ls", "grep", "echo", "sort", "cat", "`/bin/ls`", `"my prog"`, "mkdir", "deploy"})
+				if g.f.NamePool {
+					// (the pool other programs of this world take their function names from)
+					name = r.Pick([]string{"mkdir", "ls", "cat", "sort", "grep", "deploy"})
+				}
 				if len(g.f.WorldPaths) > 0 && r.Chance(30) {
 					name = `"` + r.Pick(g.f.WorldPaths) + `"`
 				}
